@@ -22,7 +22,8 @@ def failed_set(repo, scr):
         try:
             ev = json.load(open(scr + "/.verif-evidence/%s.json" % c))
             for o in ev["coverage"].get("failed_obligations_of_other_properties", []):
-                out.add("%s-%s" % (o["unit"], o["obligation"]))
+                if "UNDECIDED." not in str(o["obligation"]):      # an unprovable debug_assert! makes the check undecided, it is not reported
+                    out.add("%s-%s" % (o["unit"], o["obligation"]))
         except Exception:
             pass
     return out, und
